@@ -146,7 +146,7 @@ MMs == IF Thorough THEN {"00", "01", "30", "59", "60", "99"} ELSE {"00", "59", "
 SSs == IF Thorough THEN {"00", "01", "30", "59", "60", "99"} ELSE {"00", "59", "60"}
 Fracs == {"", ".000", ".999", ".99", ".9999"}
 Zones == {"Z", "", "+0000", "-2359", "+2359", "+2400", "+0060", "-0001", "+1", "z", "-0000", "+0530"}
-Times == {"T" \o hh \o ":" \o mm \o ":" \o ss \o fr \o zn : hh \in HHs, mm \in MMs, ss \in SSs, fr \in Fracs, zn \in Zones}
+TimesAt(hh) == {"T" \o hh \o ":" \o mm \o ":" \o ss \o fr \o zn : mm \in MMs, ss \in SSs, fr \in Fracs, zn \in Zones}
 SelDates == {"1970-01-01", "0000-01-01", "9999-12-31", "2024-02-29"}
             \cup (IF Thorough THEN {"1969-12-31", "2023-02-29", "2000-02-29", "1900-02-28", "2100-03-01", "0000-12-31", "0000-02-29", "9999-01-01"} ELSE {})
 SelTimes == {"", "T00:00:00Z", "T23:59:59.999Z", "T23:59:59.999-2359", "T00:00:00.000+2359", "T12:34:56+0530",
@@ -252,7 +252,7 @@ Coords ==
   {<<"dec">>, <<"v4odd">>, <<"v6odd">>, <<"dtdates">>, <<"dtodd">>, <<"class">>, <<"chain">>}
   \cup {<<"v4", o>> : o \in Octs}
   \cup {<<"v6", h>> : h \in 0..9}
-  \cup {<<"dt", x>> : x \in SelDates}
+  \cup {<<"dt", x, hh>> : x \in SelDates, hh \in HHs}
   \cup {<<"dur", k>> : k \in {"single", "subsets", "edge", "order"}}
   \cup {<<"decop", f>> : f \in DecCmpFns \cup {"eq"}}
   \cup {<<"ipop", f>> : f \in {"isInRange", "eq"}}
@@ -269,7 +269,7 @@ CasesOf(k) ==
     [] k[1] = "v4odd" -> Plain({ObsIp(Cp(x)) : x \in V4Odd})
     [] k[1] = "v6" -> Plain({ObsIp(x) : x \in V6Strings(k[2])})
     [] k[1] = "v6odd" -> Plain({ObsIp(Cp(x)) : x \in V6Odd})
-    [] k[1] = "dt" -> Plain({ObsDt(x) : x \in DatesByTimes({k[2]}, Times)})
+    [] k[1] = "dt" -> Plain({ObsDt(x) : x \in DatesByTimes({k[2]}, TimesAt(k[3]))})
     [] k[1] = "dtdates" -> Plain({ObsDt(x) : x \in DatesByTimes({yy \o "-" \o md : yy \in Years, md \in MDs}, SelTimes)})
     [] k[1] = "dtodd" -> Plain({ObsDt(Cp(x)) : x \in DtOdd})
     [] k[1] = "dur" ->
